@@ -22,7 +22,7 @@ LEVEL_TEXT = {
  "C13": "Exploration: table-driven invalid-argument cases for every entry point, one process-isolated case each, with pre-poisoned outputs and a conservation ledger; the (k,m) shape box is enumerated completely per backend. The converse clause is exercised with 1..200 fragment pointers and five values of the forced-check flag on accepted instances.",
  "C14": "Exploration (bounded-exhaustive histories + random): history monitor against a set model, registry walked through the exported list, counter wrap forced via the exported counter, also on clang -O2. Plus fault enumeration of create (every allocation site fails once) with one or two live siblings of the same backend.",
  "C15": "Exploration: page-protection monitor (inputs read-only, abutting PROT_NONE pages) over all consuming APIs plus output comparison across histories, live instances and threads. Includes fragments stamped by older writer versions on the read-only pages.",
- "C16": "Exploration: random API histories under ASan+LSan and under the conservation ledger (library-allocated live blocks / dlopen balance return to baseline). Plus allocation-failure enumeration: every allocation site of create/encode/16 decode-reconstruct variants/fragments_needed/validation fails once (forked child per site), foreign fragments between live instances, misaligned inputs.",
+ "C16": "Exploration: random API histories under ASan+LSan and under the conservation ledger (library-allocated live blocks / dlopen balance return to baseline). Plus allocation-failure enumeration: every allocation site of create/encode/18 decode-reconstruct variants (incl. the flat-XOR P-xor-Q branch between decodes of a smaller stripe)/fragments_needed/validation fails once (forked child per site), foreign fragments between live instances, misaligned inputs.",
  "C17": "Fault enumeration: every call position of every backend operation in a scripted workload is made to fail once at the plugin boundary; rc, ledger delta, registry and the next identical call are checked. 16 configurations (m > k, k = 1, k = m, k+m = 32, backend metadata), the backends' own init failures after instance churn, and every position of the reference libisal's matrix-inversion failpoint.",
  "C18": "Exploration: ThreadSanitizer on stress workloads plus directed pairwise interleavings at 19 yield points (tsan and asan builds), per-thread sequential oracles. Cannot enumerate all interleavings; reports 'held on N rounds / M distinct interleavings'. Threads work on different stripe variants (content and length), are steered to the flat-XOR P-xor-Q triples, share input buffers, ask for multi-element fragments_needed lists and compare native/twin metadata.",
  "C19": "Exploration + fault positions: the codec monitors on both ISA-L adapters running on a clean-room libisal, success required iff the first k surviving rows are invertible; every injected inversion failure position.",
